@@ -83,6 +83,16 @@ impl Bind {
         self.bound_generics.is_empty()
     }
 
+    /// generics of a constructed compound that no field determined are the bottom type
+    pub(crate) fn with_unbound_as_unknown(mut self, names: &[Identifier]) -> Self {
+        for name in names {
+            self.bound_generics
+                .entry(*name)
+                .or_insert_with(|| X_UNKNOWN.clone());
+        }
+        self
+    }
+
     /// whether no generic is bound to anything but itself or the bottom type
     pub(crate) fn is_trivial(&self) -> bool {
         self.bound_generics.iter().all(|(k, v)| match v.as_ref() {
@@ -142,7 +152,7 @@ impl XCompoundSpec {
             let t = param.type_.resolve_bind(binding, Some(tail));
             ret = ret.mix(&t.bind_in_assignment(arg)?)?;
         }
-        Some(ret)
+        Some(ret.with_unbound_as_unknown(&self.generic_names))
     }
 
     fn generics_with_bind(&self, bind: &Bind) -> Vec<Arc<XType>> {
